@@ -147,4 +147,19 @@ PROPS = {
         "level_note": "Trusted: Coq kernel + vm_compute; hand model tied by differential testing; CSV parsing of the user lexicon is C11's subject; optimal-cost equality across the two dictionaries is checked on the implementation, not a separate theorem.",
         "technique": "machine-checked proof in Coq (permutation of candidate multisets, dictionary state machine) + checked model/code correspondence and metamorphic oracle",
     },
+    "C12": {
+        "theorems": ["c12_run_of_spaces", "c12_words_start_after_run", "c12_no_space_in_words", "c12_spaces_only", "c12_ignore_space_rejected"],
+        "check_targets": ["Check/C12Check.vo"],
+        "case_type": "tokcase",
+        "report_fn": "c12_report",
+        "n": {"quick": 800, "thorough": 20000},
+        "rule": TOK_RULE + "; C12: ignore_space always on, 90% of the dictionaries satisfy the precondition by construction (SPACE-only lines for U+0020 / U+3000 appended last, no space in lexicon surfaces); each case = one sentence + 3 re-spacings (every run of U+0020 to another non-zero length, leading/trailing runs added or removed); non-trivial: precondition holds, first sentence has at least two tokens and at least one re-spacing differs from it",
+        "trusted_base": TOK_TRUSTED + [
+            "the invariance under re-spacing is NOT a Coq theorem: it is decided by the metamorphic oracle on the implementation's tokens and, for the model, through the correspondence",
+        ],
+        "assumptions": ["precondition of the property (checked per case by the oracle; cases violating it are not judged)"],
+        "level_text": "PARTIAL proof. Coq theorems under the property's precondition: c12_run_of_spaces (the skip covers exactly the maximal run of space characters), c12_words_start_after_run (every word starts at a non-space character), c12_no_space_in_words (no stored word, hence no token, contains a space character: lattice-wide invariant over the scan), c12_spaces_only (a sentence of spaces yields no tokens), c12_ignore_space_rejected (error when SPACE is undefined). The central statement 'tokens are unchanged by re-spacing' is kept visible in Props/C12.v as not proved; it is decided on every run by a metamorphic oracle on the real tokenizer (4 re-spacings per sentence, all token fields except ranges compared) and the model is tied to the code by the usual correspondence on the same cases.",
+        "level_note": "Partial: re-spacing invariance itself is checked by exploration (metamorphic differential run), not by a theorem; what is proved are the structural lemmas it rests on. Trusted: Coq kernel + vm_compute; hand model tied by differential testing.",
+        "technique": "machine-checked proof in Coq of the structural lemmas (run skipping, space-free words, spaces-only) + metamorphic oracle and checked model/code correspondence for the invariance",
+    },
 }
